@@ -1,5 +1,7 @@
 import BoltonsVerif.C12.Proofs
+import BoltonsVerif.C12.Proofs3
 import BoltonsVerif.Generated.C12_Consts
+import BoltonsVerif.Generated.C12_NsWindow
 /-
 C12 — property theorems for the BufferedSocket / NetstringSocket model (statements, short
 derivations from `Proofs.lean`, non-vacuity examples).
@@ -495,5 +497,241 @@ example : (send [1, 2, 3] (sstart [.accept 2, .accept 5, .clock])).1 = .timeout 
 -- the deadline passes after a partial send: the rest waits for flush, nothing is sent twice
 example : ((srun [.send [1, 2, 3], .flush] (sstart [.accept 2, .clock])).1.map (·.1)) = [.timeout, .none] ∧
     (srun [.send [1, 2, 3], .flush] (sstart [.accept 2, .clock])).2.wire = [1, 2, 3] := by decide
+
+/-! ## 7. round 3: the send side against a flat specification, the BufferedSocket as one object
+    (receive and send calls interleaved on the same instance), fault classes, `flags` -/
+
+/-- the flat specification delivers every byte exactly once and in order: what went out followed by what
+    is still unsent is the buffer, and without a timeout nothing stays behind -/
+theorem deliver_exactly_once (script : List SEv) (buf : Bytes) :
+    (deliver script buf).2.1 ++ (deliver script buf).2.2.1 = buf ∧
+    ((deliver script buf).1 = false → (deliver script buf).2.2.1 = []) := by
+  have h := sendLoop_ok script buf 0 []
+  rw [sendLoop_deliver] at h
+  obtain ⟨h1, -, -, h4, -, -⟩ := h
+  refine ⟨by simpa using h1, ?_⟩
+  intro hf
+  have := (h4 (0 + (deliver script buf).2.1.length) (by simp [hf])).1
+  simpa using this
+
+/-- send / sendall / buffer / flush in any order refine the flat specification in which the send buffer is
+    ONE byte string: every result, every getsendbuffer() and the wire after every call agree -/
+theorem send_side_flat_spec (ops : List SOp) (st : SSt) :
+    sobs (srun ops st).1 = (frun ops st.flat).1 ∧ (srun ops st).2.flat = (frun ops st.flat).2 :=
+  srun_flat ops st
+
+/-- how the pending bytes are spread over the entries of `sbuf` (one `buffer()` call each, empty entries,
+    an entry left by a timed-out send) cannot be observed by any later history of calls -/
+theorem sbuf_structure_unobservable (ops : List SOp) (st₁ st₂ : SSt) (h : st₁.flat = st₂.flat) :
+    sobs (srun ops st₁).1 = sobs (srun ops st₂).1 ∧ (srun ops st₁).2.flat = (srun ops st₂).2.flat := by
+  obtain ⟨a₁, b₁⟩ := srun_flat ops st₁
+  obtain ⟨a₂, b₂⟩ := srun_flat ops st₂
+  rw [h] at a₁ b₁
+  exact ⟨a₁.trans a₂.symm, b₁.trans b₂.symm⟩
+
+/-- an ordering law: `buffer(a); buffer(b); flush()` puts on the wire, leaves buffered and uses up of the
+    socket's script exactly what `send(a + b)` does, and times out exactly when that does -/
+theorem buffer_buffer_flush_is_send (a b : Bytes) (st : SSt) :
+    (srun [.buffer a, .buffer b, .flush] st).2.flat = (srun [.send (a ++ b)] st).2.flat ∧
+    ((sstep .flush (sstep (.buffer b) (sstep (.buffer a) st).2).2).1 = .timeout
+      ↔ (sstep (.send (a ++ b)) st).1 = .timeout) := by
+  obtain ⟨-, e₁⟩ := srun_flat [.buffer a, .buffer b, .flush] st
+  obtain ⟨-, e₂⟩ := srun_flat [.send (a ++ b)] st
+  refine ⟨?_, ?_⟩
+  · rw [e₁, e₂]
+    simp only [frun, fstep, fsend, List.append_assoc, List.append_nil]
+    by_cases h : (deliver st.flat.script (st.flat.buf ++ (a ++ b))).1 = true <;> simp [h]
+  · have f₁ := sstep_flat (.buffer a) st
+    have f₂ := sstep_flat (.buffer b) (sstep (.buffer a) st).2
+    have f₃ := sstep_flat .flush (sstep (.buffer b) (sstep (.buffer a) st).2).2
+    have f₄ := sstep_flat (.send (a ++ b)) st
+    rw [f₃.1, f₂.2, f₁.2, f₄.1]
+    simp only [fstep, fsend, List.append_assoc, List.append_nil]
+    by_cases h : (deliver st.flat.script (st.flat.buf ++ (a ++ b))).1 = true <;> simp [h]
+
+/-- a fresh BufferedSocket over a socket that will play `rscript` to recv and `sscript` to send; `rtags` /
+    `stags` are the classes of the faults in the two scripts, in order -/
+abbrev bstart (cfg : Cfg) (rscript : List Ev) (sscript : List SEv) (rtags stags : List Fault) : BSock :=
+  ⟨cfg, ⟨[], rscript⟩, ⟨[], [], sscript⟩, rtags, stags⟩
+
+/-- receive and send calls interleaved on ONE object: the receive-side calls return / raise exactly what
+    they do in the history with the send-side calls left out, whatever state the send side is in - a send,
+    buffer or flush never touches the receive buffer, maxsize or the undelivered stream -/
+theorem duplex_rx_independent (large : Nat) (ops : List DOp) (b b' : BSock) (h : b.rxPart = b'.rxPart) :
+    (drun large ops b).1.filter (fun p => p.1.isRx) = (drun large (ops.filter DOp.isRx) b').1 ∧
+    (drun large ops b).2.rxPart = (drun large (ops.filter DOp.isRx) b').2.rxPart :=
+  drun_rx_independent large ops b b' h
+
+/-- ... and the send-side calls are not affected by the receive-side calls in between -/
+theorem duplex_tx_independent (large : Nat) (ops : List DOp) (b b' : BSock) (h : b.txPart = b'.txPart) :
+    (drun large ops b).1.filter (fun p => p.1.isTx) = (drun large (ops.filter DOp.isTx) b').1 ∧
+    (drun large ops b).2.txPart = (drun large (ops.filter DOp.isTx) b').2.txPart :=
+  drun_tx_independent large ops b b' h
+
+/-- conservation on the one object, per call and in both directions at once, whatever the call returns
+    or raises: handed over ++ rbuf ++ undelivered is unchanged, and wire ++ send buffer grows by exactly
+    the bytes accepted with this call (none when the call was refused for its flags) -/
+theorem duplex_conservation (large : Nat) (op : DOp) (b : BSock) (hrs : 0 < b.cfg.recvsize) :
+    op.consumed (dstep large op b).1 large b.cfg.maxsize ++ (dstep large op b).2.rx.view = b.rx.view ∧
+    (dstep large op b).2.tx.wire ++ (dstep large op b).2.tx.getsendbuffer
+      = b.tx.wire ++ b.tx.getsendbuffer ++ op.accepted (dstep large op b).1 ∧
+    (dstep large op b).2.cfg.recvsize = b.cfg.recvsize := by
+  cases op with
+  | call c =>
+    obtain ⟨h1, h2⟩ := dcall_conserves large c b hrs
+    have h3 := dcall_txPart large c b
+    simp only [BSock.txPart, Prod.mk.injEq] at h3
+    refine ⟨h1, ?_, h2⟩
+    simp only [dstep, h3.1, DOp.accepted]
+    cases (dcall large c b).1 <;> simp
+  | recvFlags size flags =>
+    simp only [dstep]
+    split
+    · simp [DOp.consumed, DOp.accepted]
+    · obtain ⟨h1, h2⟩ := dcall_conserves large (.recv size) b hrs
+      have h3 := dcall_txPart large (.recv size) b
+      simp only [BSock.txPart, Prod.mk.injEq] at h3
+      refine ⟨?_, ?_, h2⟩
+      · cases hq : (dcall large (.recv size) b).1 with
+        | rx r =>
+          rw [hq] at h1
+          cases r with
+          | none => simpa [DOp.consumed, Call.op] using h1
+          | some r => cases r <;> simpa [DOp.consumed, Call.op, consumed] using h1
+        | tx r => rw [hq] at h1; simpa [DOp.consumed] using h1
+        | fault f => rw [hq] at h1; simpa [DOp.consumed] using h1
+        | valueError => rw [hq] at h1; simpa [DOp.consumed] using h1
+      · rw [h3.1]
+        cases (dcall large (.recv size) b).1 <;> simp [DOp.accepted]
+  | sop o =>
+    obtain ⟨h1, -⟩ := dsop_conserves o b
+    have h3 := dsop_rxPart o b
+    simp only [BSock.rxPart, Prod.mk.injEq] at h3
+    refine ⟨?_, ?_, by simp only [dstep]; rw [h3.1]⟩
+    · simp only [dstep, h3.2.1]
+      cases (dsop o b).1 <;> simp [DOp.consumed]
+    · simp only [dstep]
+      rw [h1]
+      unfold dsop
+      split <;> simp [DOp.accepted]
+  | sendFlags d flags =>
+    simp only [dstep]
+    split
+    · simp [DOp.consumed, DOp.accepted]
+    · obtain ⟨h1, -⟩ := dsop_conserves (.send d) b
+      have h3 := dsop_rxPart (.send d) b
+      simp only [BSock.rxPart, Prod.mk.injEq] at h3
+      refine ⟨?_, ?_, by rw [h3.1]⟩
+      · rw [h3.2.1]
+        cases (dsop (.send d) b).1 <;> simp [DOp.consumed]
+      · rw [h1]
+        unfold dsop
+        split <;> simp [DOp.accepted, SOp.data]
+
+/-- which exception a fault surfaces as: while one class is recorded per fault still ahead in each script
+    (true of a fresh object, kept by every call), a call that raises a fault raises the class of the NEXT
+    unconsumed fault of its own direction - socket.timeout / passed deadline -> Timeout, the socket's OSError
+    -> that OSError - and consumes exactly that one -/
+theorem fault_class_exact (large : Nat) (op : DOp) (b : BSock) (h : b.Aligned) :
+    (dstep large op b).2.Aligned ∧
+    (∀ f, (dstep large op b).1 = .fault f →
+      (op.isRx = true → b.rtags = f :: (dstep large op b).2.rtags) ∧
+      (op.isRx = false → b.stags = f :: (dstep large op b).2.stags)) :=
+  dstep_aligned large op b h
+
+/-- ... at every moment of every history from a fresh object -/
+theorem fault_classes_aligned (large : Nat) (ops : List DOp) (cfg : Cfg) (rscript : List Ev)
+    (sscript : List SEv) (rtags stags : List Fault)
+    (hr : rtags.length = nTO rscript) (hs : stags.length = nSF sscript) :
+    (drun large ops (bstart cfg rscript sscript rtags stags)).2.Aligned :=
+  drun_aligned large ops _ ⟨hr, hs⟩
+
+/-- `recv(size, flags)` / `send(data, flags)` with non-zero flags: ValueError, and the object - both buffers,
+    both scripts, maxsize - is exactly as before (the data is NOT accepted); with flags = 0 they are
+    `recv(size)` / `send(data)` -/
+theorem flags_refused_untouched (large : Nat) (b : BSock) (size : Nat) (data : Bytes) (flags : Nat) :
+    (flags ≠ 0 → dstep large (.recvFlags size flags) b = (.valueError, b) ∧
+                 dstep large (.sendFlags data flags) b = (.valueError, b)) ∧
+    (flags = 0 → dstep large (.recvFlags size flags) b = dstep large (.call (.recv size)) b ∧
+                 dstep large (.sendFlags data flags) b = dstep large (.sop (.send data)) b) := by
+  refine ⟨fun h => ?_, fun h => ?_⟩
+  · simp [dstep, h]
+  · simp [dstep, h]
+
+/-! non-vacuity for section 7 -/
+example : deliver [.accept 2, .timeout, .accept 1] [1, 2, 3, 4] = (true, [1, 2], [3, 4], [.accept 1]) := by decide
+example : deliver [.accept 2, .clock] [1, 2] = (true, [1, 2], [], []) := by decide
+example : (frun [.buffer [1], .buffer [], .send [2, 3], .flush] ⟨[], [], [.accept 2, .timeout]⟩).1
+    = [(.none, [1], []), (.none, [1], []), (.timeout, [3], [1, 2]), (.none, [], [1, 2, 3])] := by decide
+-- two concrete states with the same flat view
+example : (⟨[[1], [], [2]], [9], [.accept 1]⟩ : SSt).flat = (⟨[[1, 2]], [9], [.accept 1]⟩ : SSt).flat := by decide
+-- one object, calls of both directions interleaved; the second recv_until times out with the OSError class
+def exDuplex : BSock :=
+  bstart ⟨2, 100⟩ [.chunk [97, 13], .timeout, .chunk [10, 98]] [.accept 1, .clock] [.osError] [.timeout]
+example : exDuplex.Aligned := ⟨by decide, by decide⟩
+example : ((drun 1000 [.call (.recvUntil [13, 10] .unset false), .sop (.send [1, 2]),
+      .call (.recvUntil [13, 10] .unset false), .sendFlags [7] 1, .sop .flush, .recvFlags 1 4,
+      .call (.recv 5)] exDuplex).1.map (·.2))
+    = [.fault .osError, .fault .timeout, .rx (some (.ok [97])), .valueError, .tx .none, .valueError,
+       .rx (some (.ok [98]))] := by decide
+example : (drun 1000 [.call (.recvUntil [13, 10] .unset false), .sop (.send [1, 2]),
+      .call (.recvUntil [13, 10] .unset false), .sendFlags [7] 1, .sop .flush] exDuplex).2.tx.wire = [1, 2] := by
+  decide
+
+/-! ## 8. round 3: the read loop over `recv`; sizes as Python ints -/
+
+/-- the caller's loop `while True: d = recv(size) (Timeout: again); if not d: break; out += d` hands over the
+    whole remaining stream, in order, exactly once, for every chunking, recvsize and timeout placement, and
+    then the stream is exhausted - the `recv` clause of the statement at the strength of the others -/
+theorem recv_drain_whole_stream (cfg : Cfg) (hrs : 0 < cfg.recvsize) (size : Nat) (hs : 0 < size) (st : St) :
+    (drain cfg size (measure st.script + st.view.length + 1) st).1 = st.view ∧
+    (drain cfg size (measure st.script + st.view.length + 1) st).2.view = [] :=
+  drain_ok cfg hrs size hs _ st (Nat.le_refl _)
+
+/-- ... so two networks delivering the same bytes give the same bytes to that loop, whatever the two
+    recvsize settings and the two `size` arguments -/
+theorem recv_drain_chunk_independent (cfg₁ cfg₂ : Cfg) (h₁ : 0 < cfg₁.recvsize) (h₂ : 0 < cfg₂.recvsize)
+    (n₁ n₂ : Nat) (hn₁ : 0 < n₁) (hn₂ : 0 < n₂) (s₁ s₂ : List Ev) (hs : pending s₁ = pending s₂) :
+    (drain cfg₁ n₁ (measure s₁ + (start s₁).view.length + 1) (start s₁)).1
+      = (drain cfg₂ n₂ (measure s₂ + (start s₂).view.length + 1) (start s₂)).1 := by
+  rw [(recv_drain_whole_stream cfg₁ h₁ n₁ hn₁ (start s₁)).1, (recv_drain_whole_stream cfg₂ h₂ n₂ hn₂ (start s₂)).1]
+  simp [St.view, hs]
+
+/-- `recv_size` with the size as a Python `int` (integer comparison `total_bytes >= size`, the slices
+    `nxt[:-extra]` / `nxt[-extra:]` with `extra` possibly larger than `len(nxt)`): on a natural number it is the
+    `recvSize` of the theorems above, and a negative size behaves exactly like `recv_size(0)` -/
+theorem recv_size_int_faithful (cfg : Cfg) (st : St) :
+    (∀ n : Nat, recvSizeI cfg (n : Int) st = recvSize cfg n st) ∧
+    (∀ s : Int, s ≤ 0 → recvSizeI cfg s st = recvSize cfg 0 st) :=
+  ⟨fun n => recvSizeI_ofNat cfg n st, fun s hs => recvSizeI_neg cfg s hs st⟩
+
+/-- `read_ns` with the size prefix kept as the (possibly negative) `int` that `int()` returns - the comparison
+    `size > maxsize` on integers, `recv_size(size)` with that integer - is the `read_ns` of the theorems above,
+    which clamps a negative size to 0 (`parseSize`): the clamping loses nothing.  The driver runs this version. -/
+theorem read_ns_int_size_faithful (cfg : Cfg) (ns : NsSock) (arg : Option Nat) (k : Nat) (st : St) :
+    NsSock.readNsManyI cfg ns arg k st = NsSock.readNsMany cfg ns arg k st :=
+  NsSock.readNsManyI_eq cfg ns arg k st
+
+/-! non-vacuity for section 8 -/
+example : (drain ⟨2, 100⟩ 3 20 (start exScript)).1 = [97, 98, 13, 10, 99, 100, 13, 10] := by decide
+example : (recvSizeI ⟨4, 4⟩ (-5) (start [.chunk [1, 2, 3]])).1 = .ok [] ∧
+    (recvSizeI ⟨4, 4⟩ (-5) (start [.chunk [1, 2, 3]])).2.rbuf = [1, 2, 3] := by decide
+example : (recvSizeI ⟨4, 4⟩ (-5) (start [])).1 = .closed := by decide
+example : pyDropLast 5 [1, 2, 3] = [] ∧ pyLast 5 [1, 2, 3] = [1, 2, 3] ∧ pyDropLast 1 [1, 2, 3] = [1, 2] := by decide
+example : ((NsSock.init 10).readNsManyI ⟨4, 4⟩ none 2 (start [.chunk [45, 49, 58, 44, 49, 58, 7, 44]])).1
+    = [.ok [], .ok [7]] := by decide
+
+/-! ## 9. round 3: the prefix window of NetstringSocket, measured on the current source -/
+
+/-- translator-regenerated fact: for every maxsize of the table (digit-count boundaries up to 10^18, 2^31, 2^53,
+    2^63, 2^64) the longest size prefix the REAL read_ns accepts - measured through the public API on every run, for
+    maxsize given to the constructor, to setmaxsize() and as the maxsize= argument - is the window the model
+    computes (`NsSock.init`, `NsSock.setMaxsize`, `calcWindow`), i.e. `len(str(maxsize)) + 1`, far beyond the
+    sizes the test cases reach -/
+theorem ns_window_table_matches_source :
+    ∀ p ∈ Gen.nsWindowTable, (NsSock.init p.1).window = p.2.1 ∧
+      ((NsSock.init 0).setMaxsize p.1).window = p.2.2.1 ∧ calcWindow p.1 = p.2.2.2 := by decide
+
+example : Gen.nsWindowTable.length ≥ 30 ∧ (1000000000000000, 17, 17, 17) ∈ Gen.nsWindowTable := by decide
 
 end C12
